@@ -132,6 +132,14 @@ FIRST.update({  # round 8
  "C14f": ("missed", "C14 clauses reduce_only_deposits_still_count_when_liquidation_is_assessed / _when_bad_debt_is_assessed"),
  "C17e": ("missed", "edge driver: utilization boundary by bisection (borrow and withdraw) on banks whose deposits and debt both carry a fraction after accrual; amounts around the boundary recorded"),
 })
+FIRST.update({  # rounds 9 and 10
+ "C12f": ("missed (not run before the strengthening: no recorded instruction carried bytes trailing its arguments, so the shape could not occur)", "harness modifier pad; TxShape padded start / end symbols (RecvP instance); C12 clause deleverage_is_bracketed_like_a_liquidation / deleverage_leaves_no_marker_on_any_account; admin driver: two-account deleverage brackets with a plain and a padded second start"),
+ "C08g": ("missed (not run before the strengthening: the padded start existed only in C10's RecvP instance)", "RecvP instance added to C08 (its general clause third_party_control_ends_with_the_transaction judges the committed lists)"),
+ "C02h": ("missed", "edge driver: all sixteen slots in use, one of them holding less than a share (every whole unit withdrawn after accrual), a seventeenth position attempted by deposit and by borrow"),
+ "C03g": ("missed", "edge driver: an operation reaching across the zero of a position by less than 0.0001 (withdraw 1001 of a deposit worth 1000.99995; borrow against a remainder of 0.00005), share value set by marked injection"),
+ "C06h": ("missed", "edge driver: time passes and interest accrues on a bank flagged for token-less repayments (wind-down)"),
+ "C07h": ("missed", "C07 clause insurance_pays_first_up_to_its_balance now computes, for transfer-fee mints, what the whole insurance vault can deliver net of the fee in force including its cap (it had only bounded the outflow by the vault balance)"),
+})
 for d in sorted(os.listdir(os.path.join(ROOT, "seeded"))):
     mp = os.path.join(ROOT, "seeded", d, "meta.json")
     rp = os.path.join(ROOT, "seeded", d, "result.txt")
